@@ -210,6 +210,8 @@ func (dt DateTime) Add(input Quantity) (DateTime, error) {
 		if err != nil {
 			return DateTime{}, err
 		}
+		// convert to whole units of the value's precision first, as Sub does
+		duration = roundToDateTimePrecision(dateTimeMap[dt.l], duration)
 		result = dt.dateTime.Add(duration)
 	}
 
